@@ -21,9 +21,9 @@ type base struct {
 // cspec is one input: an edit of a base, or raw bytes.
 type cspec struct {
 	ID   string `json:"id"`
-	Fam  string `json:"fam"`            // corpus | gen | bytes | enum | nest | regress
+	Fam  string `json:"fam"`            // corpus | gen | tmpl | bytes | enum | nest | htmlattr | interp | tagpos | regress
 	Base int    `json:"base"`           // index into job.Bases, -1 for raw
-	Op   string `json:"op"`             // raw | whole | prefix | del | dup | cut | ins | flip | rep
+	Op   string `json:"op"`             // raw | whole | prefix | del | dup | sub | cutsub | cut | ins | insend | flip | rep
 	I    int    `json:"i,omitempty"`    // token index / byte offset
 	J    int    `json:"j,omitempty"`    // second parameter (end token, bit, repeat count)
 	Raw  []byte `json:"raw,omitempty"`  // raw input, or the inserted bytes
@@ -67,6 +67,12 @@ func materialise(bs []base, c cspec) []byte {
 	case "dup":
 		s, e := tok(c.I)
 		return cat(src[:e], []byte(" "), src[s:e], src[e:])
+	case "sub": // replace token I by Raw
+		s, e := tok(c.I)
+		return cat(src[:s], c.Raw, src[e:])
+	case "cutsub": // everything in front of token I, then Raw, then the end of the text
+		s, _ := tok(c.I)
+		return cat(src[:s], c.Raw)
 	case "cut": // byte-level truncation
 		if c.I > len(src) {
 			return src
